@@ -52,12 +52,13 @@ func emit(e Event) {
 }
 
 var lastCut int
+var cutEvery = 250
 var curSource = "os" // kind of the source the harness installed last
 
 // maybeCut marks a point where no specification state is carried over, so
 // that the driver may split the trace there (one TLC process per shard).
 func maybeCut() {
-	if nEvents-lastCut >= 250 {
+	if nEvents-lastCut >= cutEvery {
 		emit(Event{"op": "Cut", "source": curSource})
 		lastCut = nEvents
 	}
